@@ -136,8 +136,10 @@ func c12Accounting(nOps int, withFreeze bool) {
 		}
 		break
 	}
-	if !frozen {
-		verifrt.Assert(delivered == sent, "C12 every accepted seed reaches the output")
+	// freezing only stops the reactor from accepting; what it accepted before still has to come out
+	verifrt.Assert(delivered == sent, "C12 every accepted seed reaches the output")
+	if frozen {
+		verifrt.Cover("drained-after-freeze")
 	}
 	verifrt.Assert(len(r.tokenPool) == c12Tracked(), "C12 tracked == tokens at quiescence")
 	_ = accepted
